@@ -11,7 +11,7 @@ use std::{
     sync::Mutex,
 };
 
-pub use crate::{socket::MioStream, worker::verif::*};
+pub use crate::{accept::verif::*, socket::MioStream, worker::verif::*};
 
 /// Points inside the accept loop at which a generated schedule may run other "threads".
 #[derive(Debug, Clone, Copy, PartialEq, Eq)]
